@@ -15,6 +15,9 @@ import (
 	"fmt"
 	"os"
 	"sort"
+	"strconv"
+	"sync"
+	"time"
 )
 
 type propHarness struct {
@@ -53,13 +56,44 @@ func main() {
 	case "exec":
 		in := bufio.NewScanner(os.Stdin)
 		in.Buffer(make([]byte, 1<<20), 1<<28)
+		// Watchdog: a case that does not return within VERIF_CASE_TIMEOUT seconds (default 60) is
+		// reported as the outcome "hang" and the process exits with status 3; the runner re-starts the
+		// harness on the remaining cases.  Output is flushed per case so that, after a hang or a fatal
+		// runtime error (not recoverable in Go), the lines written so far identify the case.
+		limit := 60 * time.Second
+		if v, err := strconv.Atoi(os.Getenv("VERIF_CASE_TIMEOUT")); err == nil && v > 0 {
+			limit = time.Duration(v) * time.Second
+		}
+		var mu sync.Mutex
+		started := time.Now()
+		busy := false
+		go func() {
+			for {
+				time.Sleep(500 * time.Millisecond)
+				mu.Lock()
+				if busy && time.Since(started) > limit {
+					out.WriteString("hang\n")
+					out.Flush()
+					os.Exit(3)
+				}
+				mu.Unlock()
+			}
+		}()
 		for in.Scan() {
 			line := in.Text()
 			if line == "" {
 				continue
 			}
-			out.WriteString(safeExec(p.exec, line))
+			mu.Lock()
+			started, busy = time.Now(), true
+			mu.Unlock()
+			res := safeExec(p.exec, line)
+			mu.Lock()
+			busy = false
+			out.WriteString(res)
 			out.WriteByte('\n')
+			out.Flush()
+			mu.Unlock()
 		}
 	default:
 		fmt.Fprintf(os.Stderr, "unknown mode %s\n", os.Args[2])
